@@ -1,7 +1,7 @@
 (* C42 — editor support returns exact reference ranges and board positions.  Statements only. *)
 From Coq Require Import List NArith ZArith Bool.
 Import ListNotations.
-Require Import V.C42.Lsp V.C42.Proofs.
+Require Import V.C42.Lsp V.C42.Proofs V.C42.History.
 
 (* The board reported for a cursor position is the innermost board whose block contains the position:
    for every AST whose map ranges nest (wf), and every position, the path returned by
@@ -43,12 +43,21 @@ Theorem C42_all_declarations_returned_partial :
     declares m scope abs r -> fold_path_eqb abs target = true -> In r (collect m scope target).
 Proof. exact all_declarations_returned_partial. Qed.
 
+(* historical: before d2 f9da14f23 a quoted "layers" object was taken for a boards block and `Scenarios`
+   (a scenario for the compiler) was not; the repaired function gets both right *)
+Theorem C42_board_keyword_pinned_wrong :
+  board_path_pinned quoted_tree [] (mkPos 2 7 (-1))%Z = Some [s_layers; c_q]
+  /\ board_path quoted_tree [] (mkPos 2 7 (-1))%Z = None
+  /\ board_path_pinned case_tree [] (mkPos 2 7 (-1))%Z = None
+  /\ board_path case_tree [] (mkPos 2 7 (-1))%Z = Some [c_Scenarios; c_s].
+Proof. exact board_keyword_pinned_wrong. Qed.
+
 (* non-vacuity of the well-formedness hypothesis: a file with one layer block *)
 Example C42_wf_satisfiable :
   let r a b c d := mkRange 0 (mkPos a b (-1)) (mkPos c d (-1)) in
   let t := AMap (r 0 0 3 0)%Z
-             [AKey (Some s_layers) (Some (AMap (r 0 8 2 1)%Z
-                [AKey (Some [120%N]) (Some (AMap (r 1 5 1 10)%Z []))]))] in
+             [AKey (Some s_layers) true (Some (AMap (r 0 8 2 1)%Z
+                [AKey (Some [120%N]) true (Some (AMap (r 1 5 1 10)%Z []))]))] in
   wf t = true /\ board_at_position t (mkPos 1 7 0)%Z = [s_layers; [120%N]].
 Proof. vm_compute. split; reflexivity. Qed.
 
@@ -56,3 +65,4 @@ Print Assumptions C42_board_at_position_innermost.
 Print Assumptions C42_board_at_position_spec.
 Print Assumptions C42_ref_ranges_name_key.
 Print Assumptions C42_all_declarations_returned_partial.
+Print Assumptions C42_board_keyword_pinned_wrong.
